@@ -25,7 +25,11 @@ func runInBubble(t *testing.T, sc *Scenario) (h *History, dirty bool) {
 		}
 	}()
 	synctest.Test(t, func(t *testing.T) {
-		h = Run(sc)
+		if sc.Prop == "C07" || sc.Prop == "C08" {
+			h = RunDiam(sc)
+		} else {
+			h = Run(sc)
+		}
 	})
 	return h, false
 }
